@@ -69,6 +69,49 @@ Theorem C20_pending_api_exact :
 Proof. exact pending_api_all_histories. Qed.
 Print Assumptions C20_pending_api_exact.
 
+(* Totality: from a pool built by NewTxPool with a sanitised configuration
+   (AccountSlots >= 1) no history ever takes a branch where the Go code would
+   panic (nil or empty list in truncatePending / truncateQueue, the
+   txs[len(txs)-1] of runReorg's tail).  With it, every theorem of this file is a
+   total-correctness statement about the pool's critical sections.
+   (Not covered: reset called with a *new* head the chain does not know, where Go
+   dereferences nil - ruled out by the blockChain contract, never done by the harness.) *)
+Theorem C20_never_panics :
+  forall c genesis ops, 1 <= account_slots c -> panicked (run (new_pool c genesis) ops) = false.
+Proof. exact never_panics_all_histories. Qed.
+Print Assumptions C20_never_panics.
+
+(* Clause 7 (limits): at the end of every runReorg critical section - any
+   reset, any dirty set, any scheduler order, after any history, old or repaired
+   code - the limits hold exactly as the code defines them. *)
+Theorem C20_limits_after_every_reorg :
+  forall c genesis ops rs dirty ord,
+    1 <= account_slots c ->
+    limits_respected c (run_reorg (run (new_pool c genesis) ops) rs dirty ord).
+Proof. exact limits_all_histories. Qed.
+Print Assumptions C20_limits_after_every_reorg.
+
+(* ... and after the reorg run that follows a submission (no reset in it), every
+   remote account it promoted queues at most AccountQueue transactions.  (After a
+   reset the code gives no such bound: demoteUnexecutables re-queues without capping.) *)
+Theorem C20_account_queue_after_submission :
+  forall c genesis ops d ord,
+    1 <= account_slots c ->
+    let p' := run_reorg (run (new_pool c genesis) ops) None (Some d) ord in
+    forall a, In a d -> is_local p' a = false -> queue_len p' a <= account_queue c.
+Proof. exact account_queue_all_histories. Qed.
+Print Assumptions C20_account_queue_after_submission.
+
+(* a transaction that add accepts (error nil) is pooled: in the lookup and in
+   exactly one view - this is what reset relies on when it re-injects the
+   transactions of abandoned blocks through addTxsLocked *)
+Theorem C20_accepted_is_pooled :
+  forall c genesis ops t local rep p',
+    add_tx (run (new_pool c genesis) ops) t local = (rep, E_ok, p') ->
+    In t (all p') /\ (In t (held (pending p') (t_from t)) \/ In t (held (queue p') (t_from t))).
+Proof. exact accepted_is_pooled. Qed.
+Print Assumptions C20_accepted_is_pooled.
+
 (* Data-race clause (partial): on the method table regenerated from
    core/tx_pool.go, every entry point of TxPool (exported method or goroutine
    body) touches the shared fields only inside
@@ -122,3 +165,13 @@ Example C20_nonvacuous_holds_outside :
   fst (pending_view p) <> [].
 Proof. vm_compute. repeat split. discriminate. Qed.
 Print Assumptions C20_nonvacuous_holds_outside.
+
+(* the limits bite: 5 submissions of one remote account against GlobalSlots 2 /
+   AccountSlots 1 leave 2 pending, nothing panics, 3 transactions are dropped *)
+Definition ex_small : config := mkCfg 1 10 1 2 1 1 false [] true.
+Example C20_nonvacuous_limits :
+  let p := run (new_pool ex_small ex_genesis)
+               [OAdd [ex_tx 10 1 0 9 0; ex_tx 11 1 1 9 0; ex_tx 12 1 2 9 0; ex_tx 13 1 3 9 0; ex_tx 14 1 4 9 0] false [0; 1]] in
+  pending_count p = 2 /\ pend_len p 1 = 2 /\ queued_count p = 0 /\ panicked p = false /\ length (all p) = 2%nat.
+Proof. vm_compute. repeat split. Qed.
+Print Assumptions C20_nonvacuous_limits.
